@@ -357,6 +357,9 @@ class CSSStyleSheet(cssutils.stylesheets.StyleSheet):
             # use proper namespace object
             self._namespaces = _Namespaces(parentStyleSheet=self, log=self._log)
             self._cleanNamespaces()
+            # the replaced rules are no longer part of this sheet
+            for rule in oldCssRules:
+                rule._parentStyleSheet = None
 
         else:
             # reset
